@@ -94,5 +94,8 @@ theorem id_len_cases_src : id_len_cases = "n > max | n < min | default" := by de
 theorem max_id_len_src : max_id_len = "128" := by decide
 theorem min_id_len_src : min_id_len = "1" := by decide
 theorem id_rune_cond_src : id_rune_cond = "r < '!' || r > '~' || (slashes && r == '/')" := by decide
+/-- Fourth fix: `indexRespFilter.UnmarshalJSON` has one return, `nil` — an element of the wrong JSON
+type never makes `Decode` fail (`Agd.Refresh.decodeDoc true`). -/
+theorem index_entry_unmarshal_returns_src : index_entry_unmarshal_returns = "nil" := by decide
 
 end Agd.Tie.C13
